@@ -57,7 +57,7 @@ def check(c):
               'and is not rejected at its first field; distinct by image bytes')
     names_ok = S.regenerate_names(c)
     ok = c.proof(['C14'], extra_targets=['Extract/XSer.vo'])
-    if c.tier == 'thorough' and ok:
+    if c.tier == 'thorough':
         c.thorough_proof(['C14'])
     if not names_ok:
         return
@@ -100,6 +100,9 @@ def check(c):
         name = bytes(r.choice(b'abcxyz_') for _ in range(r.randint(0, 3)))
         body = bytes(r.choice([0, 0, 1, 1, 2, 3, 5, 6, 7, 8, 10, 13, r.randrange(256)]) for _ in range(r.randint(0, 60)))
         cases.append((None, 'header+garbage', 0, cnt.to_bytes(8, 'big') + len(name).to_bytes(8, 'big') + name + body))
+    # regression corpus: the inputs of the repaired findings (coq/Ser/Witness.v witness_images)
+    for w in parse_sx(c.model(S.AREA, ['(witnesses)'], cross=False)[0]):
+        cases.insert(0, (None, 'witness', 0, w))
     # dedupe by bytes
     seen = set()
     uniq = []
@@ -113,16 +116,22 @@ def check(c):
     t0 = time.time()
     il = c.impl(S.AREA, [sx([Sym('load'), cs[3]]) for cs in cases])
     t1 = time.time()
-    mt = c.model(S.AREA, [S.mline('entries', TODAY, cs[3]) for cs in cases])
-    mf = c.model(S.AREA, [S.mline('entries', FIXED, cs[3]) for cs in cases], cross=False)
-    # images written by the implementation after an accepted load, read back by the model
+    # one batch for the model (each c.model call re-validates the extraction build):
+    # the inputs under the model of the tree, under the model with every repair (only if that is a
+    # different configuration), and the images the implementation wrote after an accepted load
     idx2, lines2 = [], []
     for i, o in enumerate(il):
         k, p = kind_of(o)
         if k == 'ok':
             idx2.append(i)
             lines2.append(S.mline('entries', TODAY, p[1]))
-    m2 = dict(zip(idx2, c.model(S.AREA, lines2, cross=False)))
+    lt = [S.mline('entries', TODAY, cs[3]) for cs in cases]
+    need_fixed = (TODAY[0], TODAY[2], TODAY[3]) != (FIXED[0], FIXED[2], FIXED[3])
+    lf = [S.mline('entries', FIXED, cs[3]) for cs in cases] if need_fixed else []
+    mo = c.model(S.AREA, lt + lf + lines2)
+    mt = mo[:len(lt)]
+    mf = mo[len(lt):len(lt) + len(lf)] if need_fixed else mt
+    m2 = dict(zip(idx2, mo[len(lt) + len(lf):]))
 
     t2 = time.time()
     accepted = []
@@ -156,6 +165,10 @@ def check(c):
                 c.notes.append('alloc_untrusted_len did not reproduce (%s at %d)' % (mk, off))
             else:
                 c.violation('accept-reject-differs-from-model', dict(replay, kind='impl-vs-model', layer='L2 accept/reject', model_fixed=mf[i][:120]), no_input=True)
+            continue
+        if ik != tk and mk == 'witness':
+            # an input of a repaired finding is handled differently again: a regression, with its input
+            c.violation('regression-of-repaired-finding', dict(replay, what='implementation %s, model of the repaired code %s' % (ik, tk)))
             continue
         if ik != tk:
             if ik == fk and ik == 'err' and tk == 'ok':
